@@ -61,6 +61,10 @@ def tagname(n):
 
 def exc_name(e):
     n = type(e).__name__
+    if not isinstance(e, Exception):
+        # what the library raises on purpose are Exception subclasses (`except Exception` in the callers' and in its
+        # own code relies on it); anything else is reported under a name no model result has
+        return "Other:BaseException:" + n
     if n in ("SchedulerError", "TypeError", "AttributeError", "ValueError", "IndexError"):
         return n
     return "Other:" + n
@@ -216,6 +220,13 @@ FAILURES = [CallbackFailure, ValueError, TypeError, StopIteration, SubclassedFai
             FalsyFailure, _cf.CancelledError, _cf.TimeoutError, UserWarning, ResourceWarning]
 
 
+def failure_class(k):
+    """the k-th scripted failure: the classes above and the library's own error class (an Exception subclass like any
+    other: a callback that misuses the scheduler raises it)"""
+    k %= len(FAILURES) + 1
+    return FAILURES[k] if k < len(FAILURES) else load_impl()["SchedulerError"]
+
+
 class _CountingHandler(logging.Handler):
     def __init__(self, sink):
         super().__init__(level=logging.DEBUG)
@@ -316,7 +327,7 @@ class Impl:
                 for o in prog:
                     impl.do_cbop(o, [])  # an exception here is the callback's exception
                 if n < len(outs) and outs[n]:
-                    raise FAILURES[(jid + n) % len(FAILURES)]("scripted failure")
+                    raise failure_class(jid + n)("scripted failure")
             except Exception:
                 if impl.user_logger == "quiet":
                     # the user's logger lets nothing through: there is no record to observe, the failure must be
@@ -609,7 +620,9 @@ class Impl:
                 res = ("int", self.sch.exec_jobs(force_exec_all=o[1]))
             else:
                 raise ValueError(o)
-        except Exception as e:  # noqa
+        except (KeyboardInterrupt, SystemExit, GeneratorExit):
+            raise
+        except BaseException as e:  # noqa
             res = ("err", exc_name(e))
             if k == "INIT":
                 self.sch = None
